@@ -1066,7 +1066,7 @@ func RunC15Scenarios(ctx *core.Ctx) {
 			ctx.Case("scenario "+sc.Name+" "+fmt.Sprint(seed), true)
 			ctx.Hist("scenario", sc.Name)
 			if err != nil {
-				ctx.Fail("L1", "scenario-differs-from-serial "+sc.Name, sc.Doc+": "+err.Error(),
+				ctx.Fail("L1", c15ScenarioKey(sc.Name, err.Error()), sc.Doc+": "+err.Error(),
 					map[string]any{"scenario": sc.Name, "seed": seed, "serial": a, "concurrent": b,
 						"replay": fmt.Sprintf(".build/pqrace -scenario %s -seed %d", sc.Name, seed)})
 			}
@@ -1169,7 +1169,7 @@ func c15RaceRun(ctx *core.Ctx, bin, name, doc string, seed int64, n, procs int, 
 		ctx.Hist("race_run_unfinished", name)
 		ctx.Observe("race-run-unfinished "+name, "the -race subprocess was still running when the harness gave up waiting (slow machine); no verdict is derived from it", detail)
 	case strings.Contains(text, "MISMATCH "):
-		ctx.Fail("L1", "scenario-differs-from-serial "+name, doc+": concurrent output differs from the serial output (race build)", detail)
+		ctx.Fail("L1", c15ScenarioKey(name, text[strings.Index(text, "MISMATCH "):]), doc+": the concurrent output differs from the serial output, or from the result the input determines (race build)", detail)
 	case strings.Contains(text, "panic:") || strings.Contains(text, "fatal error:"):
 		ctx.Fail("L1", "panic "+name, doc+": panic", detail)
 	case err != nil:
